@@ -590,7 +590,17 @@ def _validator_target(prog: Program, cls: str, fld, sch: Schema) -> Optional[str
         if calls:
             return norm(calls[0].func).split(".")[-1]
         return None
-    return norm(v).split(".")[-1]
+    name = norm(v).split(".")[-1]
+    # a module-level function that only forwards to a method of the instance: validator(instance, attribute, value) -> instance.m(value)
+    ci = sch.class_info.get(cls)
+    fwd = ci.module.functions.get(name) if ci is not None and isinstance(v, ast.Name) else None
+    if fwd is not None and len(fwd.pos_params) == 3:
+        body = [b for b in fwd.node.body if not (isinstance(b, ast.Expr) and isinstance(b.value, ast.Constant))]
+        if len(body) == 1 and isinstance(body[0], (ast.Expr, ast.Return)) and isinstance(body[0].value, ast.Call):
+            c = body[0].value
+            if isinstance(c.func, ast.Attribute) and norm(c.func.value) == fwd.pos_params[0] and [norm(a) for a in c.args] == [fwd.pos_params[2]]:
+                return c.func.attr
+    return name
 
 
 def check_valid(prog: Program, res: Result, sch: Schema) -> None:
@@ -627,7 +637,7 @@ def check_valid(prog: Program, res: Result, sch: Schema) -> None:
         f = sch.fields_of(cls).get(fld)
         tgt = _validator_target(prog, cls, f, sch) if f is not None else None
         ci = sch.class_info[cls]
-        m = ci.methods.get(vname)
+        m = prog.lookup_method(ci, vname)
         res.ob("C20-valid", f is not None and tgt == vname and m is not None and _raises_valueerror(m.node),
                ci.qualname, f"{cls}.{fld} validated by {vname} (raises ValueError)",
                f"{cls}.{fld} is no longer validated by a raising {vname} (validator: {tgt})",
@@ -678,7 +688,7 @@ def check_valid(prog: Program, res: Result, sch: Schema) -> None:
     calls_orig = False
     if inner is not None:
         for n in walk_function(inner.node):
-            if isinstance(n, ast.If) and isinstance(n.test, ast.Compare) and norm(n.test.left).startswith("len(") \
+            if isinstance(n, ast.If) and isinstance(n.test, ast.Compare) and norm(astq.expand_at(inner.node, n.test.left, n)).startswith("len(") \
                     and isinstance(n.test.ops[0], ast.Gt) and astq.const_value(n.test.comparators[0]) == 1 \
                     and any(isinstance(x, ast.Raise) for b in n.body for x in ast.walk(b)):
                 ok = True
